@@ -30,7 +30,15 @@ type LinkCase struct {
 	ID    string   `json:"id"`
 	Iface string   `json:"iface"` // "abmf" | "rating": which peer misbehaves
 	Fates []string `json:"fates"` // per update: prompt | late_idle | late_during_next | drop
+	// rating only: which of the (up to three) rating requests of an update the fate applies to -- 1 tariff lookup,
+	// 2 reservation (default), 3 tariff lookup after the grant; 0 ("dense"): fates[i] applies to the i-th rating request
+	// of the FIRST update, the following updates are answered promptly
+	Pos   int  `json:"pos"`
+	Dense bool `json:"dense"`
 }
+
+// DensePos reports whether the fates are to be laid over consecutive rating requests of one update.
+func (c LinkCase) DensePos() bool { return c.Iface == "rating" && c.Dense }
 
 type scriptedPeer struct {
 	mu      sync.Mutex
@@ -39,6 +47,7 @@ type scriptedPeer struct {
 	held    []func()       // answers waiting for the next request
 	log     []int
 	answers []int
+	amounts map[int]uint64 // abmf: requested amount of peer request n
 }
 
 func (p *scriptedPeer) arrive(answerN func(n int)) (n int) {
@@ -106,6 +115,16 @@ func startScriptedPeers(addrRf, addrAb, pem, key string) (rfp, abp *scriptedPeer
 	amux.HandleFunc("CCR", func(c diam.Conn, m *diam.Message) {
 		var ccr charging_datatype.AccountDebitRequest
 		_ = m.Unmarshal(&ccr)
+		var asked uint64
+		if ccr.MultipleServicesCreditControl != nil && ccr.MultipleServicesCreditControl.RequestedServiceUnit != nil {
+			asked = uint64(ccr.MultipleServicesCreditControl.RequestedServiceUnit.CCTotalOctets)
+		}
+		abp.mu.Lock()
+		if abp.amounts == nil {
+			abp.amounts = map[int]uint64{}
+		}
+		abp.amounts[abp.count+1] = asked
+		abp.mu.Unlock()
 		abp.arrive(func(n int) {
 			cca := charging_datatype.AccountDebitResponse{
 				SessionId: ccr.SessionId, OriginHost: ccr.DestinationHost, OriginRealm: ccr.DestinationRealm,
@@ -165,16 +184,25 @@ func RunLink(prefix, in, out string) error {
 		for n, fate := range c.Fates {
 			if wedged {
 				updates = append(updates, map[string]any{"n": n + 1, "skipped": true, "finished": false, "status": -2, "own": map[string]any{"abmf": []int{}, "rating": []int{}},
-					"usedAbmf": -1, "usedRating": -1, "usedCost": -1, "ms": 0})
+					"usedAbmf": -1, "usedRating": -1, "usedCost": -1, "usedCostFirst": -1, "ms": 0})
 				continue
 			}
 			rfp.mu.Lock()
 			abp.mu.Lock()
 			r0, a0 := rfp.count, abp.count
 			// the scripted fate applies to the first request this update sends on the chosen interface
-			if c.Iface == "abmf" {
+			switch {
+			case c.Iface == "abmf":
 				abp.fates[a0+1] = fate
-			} else {
+			case c.Pos == 0 && c.DensePos():
+				if n == 0 {
+					for i, f := range c.Fates {
+						rfp.fates[r0+1+i] = f
+					}
+				}
+			case c.Pos == 1 || c.Pos == 3:
+				rfp.fates[r0+c.Pos] = fate
+			default:
 				rfp.fates[r0+2] = fate // the rating request whose Allowed-Units decide the grant
 			}
 			abp.mu.Unlock()
@@ -193,7 +221,21 @@ func RunLink(prefix, in, out string) error {
 			own := map[string]any{"abmf": seqRange(a0+1, abp.count), "rating": seqRange(r0+1, rfp.count)}
 			abp.mu.Unlock()
 			rfp.mu.Unlock()
-			usedAb, usedRf, usedCost := -1, -1, -1
+			usedAb, usedRf, usedCost, usedCostFirst := -1, -1, -1, -1
+			abp.mu.Lock()
+			if asked, ok := abp.amounts[a0+1]; ok && !res.Timeout {
+				// the first CCR of the update asks for requestedVolume x unitCost(first tariff lookup) - reservation held
+				vol := uint64(100000 * (n + 1))
+				tot := asked + uint64(reservedBefore)
+				switch {
+				case tot == vol: // unit cost 1: the lookup failed (timed out)
+				case tot%vol == 0 && tot/vol >= 1000:
+					usedCostFirst = int(tot/vol) - 1000
+				default:
+					usedCostFirst = -3
+				}
+			}
+			abp.mu.Unlock()
 			if ue, ok := chf_context.GetSelf().ChfUeFindBySupi(supi); ok && !res.Timeout {
 				if c := int(ue.UnitCost[1]); c >= 1000 {
 					usedCost = c - 1000 // tag of the rating answer the unit cost was last taken from
@@ -215,7 +257,7 @@ func RunLink(prefix, in, out string) error {
 				usedRf = rb.M[0].G.T - 100
 			}
 			updates = append(updates, map[string]any{"n": n + 1, "skipped": false, "finished": !res.Timeout, "status": res.Status, "own": own,
-				"usedAbmf": usedAb, "usedRating": usedRf, "usedCost": usedCost, "ms": ms})
+				"usedAbmf": usedAb, "usedRating": usedRf, "usedCost": usedCost, "usedCostFirst": usedCostFirst, "ms": ms})
 			if res.Timeout {
 				wedged = true
 				continue
@@ -224,7 +266,7 @@ func RunLink(prefix, in, out string) error {
 				time.Sleep(1200 * time.Millisecond) // let the late answer arrive while the subscriber is idle
 			}
 		}
-		b, _ := json.Marshal(map[string]any{"trace": c.ID, "seq": ci, "action": "link", "iface": c.Iface, "fates": c.Fates, "updates": updates})
+		b, _ := json.Marshal(map[string]any{"trace": c.ID, "seq": ci, "action": "link", "iface": c.Iface, "fates": c.Fates, "pos": c.Pos, "dense": c.DensePos(), "updates": updates})
 		_, _ = w.Write(b)
 		_ = w.WriteByte('\n')
 	}
